@@ -1,7 +1,7 @@
 SPECIFICATION Spec
 CONSTANTS
   Dev = {}
-  Symbols2 = {65, 67, 77, 45}
+  Symbols2 = {65, 67, 77, 82, 45}
   NS = 2
   EmitReplay = TRUE
 INVARIANTS ImplIsDecl Mono Emit
